@@ -640,9 +640,25 @@ def stream_edge_case(draw, tier):
         content = draw(bits_st(max_len=20, min_len=0))
     else:
         content = draw(bits_st(max_len=10)) + '0' * draw(st.integers(0, 4)) + draw(st.sampled_from(['', '1', '10', '100', '0010', '00010']))
-    pool = [['bs', draw(st.sampled_from(STREAMS)), content, draw(st.integers(0, len(content)))], ['bs', draw(st.sampled_from(STREAMS)), draw(bits_st(max_len=12, min_len=1)), 0]]
+    pos0 = len(content) if draw(st.booleans()) else draw(st.integers(0, len(content)))
+    pool = [['bs', draw(st.sampled_from(STREAMS)), content, pos0], ['bs', draw(st.sampled_from(STREAMS)), draw(bits_st(max_len=12, min_len=1)), 0]]
     steps = []
     for _ in range(draw(st.integers(1, 6))):
+        if pool[0][1] == 'BitStream' and draw(st.integers(0, 3)) == 0:
+            # a mutator on the stream that sits at (or near) its end, with empty / tiny operands
+            k = draw(st.integers(0, 5))
+            n = len(content)
+            empty = draw(st.sampled_from([['obj', 'Bits', ''], ['str', ''], ['promo', 'bytes', ''], ['obj', 'BitArray', '']]))
+            if k == 0:
+                steps.append(['mut', 'op:setitem', 0, [['int', draw(st.integers(-1, max(n - 1, 0)))], empty]])
+            elif k == 1:
+                steps.append(['mut', 'op:setitem', 0, [['slice', ['int', draw(st.integers(0, n))], ['none'], ['none']], empty]])
+            elif k == 2:
+                steps.append(['mut', 'op:delitem', 0, [['int', draw(st.integers(-1, max(n - 1, 0)))]]])
+            else:
+                steps.append(draw(step_strategy(['mut'])))
+                steps[-1][2] = 0
+            continue
         name = draw(st.sampled_from(['read', 'peek', 'readlist', 'peeklist', 'readlist', 'set_pos', 'bytealign', 'readto']))
         if name in ('read', 'peek'):
             a = [draw(st.one_of(st.just(['str', draw(st.sampled_from(EDGE_TOKENS[:23]))]), arg('fmt1')))]
